@@ -442,3 +442,55 @@ pub fn run(seed: u64, mut cfg_override: impl FnMut(&mut engine::Cfg)) -> ! {
     }
     engine::finish_ok()
 }
+
+// ------------------------------------------------------------------------------------------------
+// aimed: the global-queue hand-off. A plain thread spawns a few coroutines with small gaps while
+// the (single) worker is busy handling the wake-up of the previous one: push to the worker's
+// global queue + eventfd write on one side, eventfd read + collect on the other. Every spawned
+// coroutine runs, whatever the order (in the build without work stealing nothing but the wake-up
+// event makes a worker look at its global queue)
+// ------------------------------------------------------------------------------------------------
+
+pub fn run_handoff(seed: u64, mut ov: impl FnMut(&mut engine::Cfg)) -> ! {
+    let mut r = gen_rng(seed);
+    let workers = *r.pick(&[1usize, 1, 2]);
+    let n = r.range(2, 5) as usize;
+    let gaps: Vec<u32> = (0..n).map(|_| r.below(50) as u32).collect();
+    let yields: Vec<u32> = (0..n).map(|_| r.below(3) as u32).collect();
+    let mut cfg = swarm_cfg(seed, &swarm());
+    ov(&mut cfg);
+    engine::init(cfg);
+    engine::set_extra("params", engine::json_str(&format!("hand-off: workers {} gaps {:?} yields {:?}", workers, gaps, yields)));
+    rt::boot(&RtCfg { workers, pool_cap: 8, stack_size: 0x8000, poll_ns: *r.pick(&[10_000_000u64, 1_000_000_000]) });
+    engine::set_diag(|| format!("in flight: {}", OPS.pending()));
+    engine::set_vt_limit(engine::now() + 5_000_000_000);
+    let ran = Arc::new(AtomicU32::new(0));
+    let mut hs = Vec::new();
+    for k in 0..n {
+        for _ in 0..gaps[k] {
+            engine::yield_point();
+        }
+        let (ran, y) = (ran.clone(), yields[k]);
+        hs.push(unsafe {
+            may::coroutine::spawn(move || {
+                for _ in 0..y {
+                    may::coroutine::yield_now();
+                }
+                ran.fetch_add(1, Ordering::Relaxed);
+                k as u32
+            })
+        });
+    }
+    for (k, h) in hs.into_iter().enumerate() {
+        let o = OPS.begin(format!("join of coroutine {} (spawned from a thread)", k));
+        match h.join() {
+            Ok(v) if v == k as u32 => {}
+            _ => violation(&format!("join of coroutine {} did not return its value", k)),
+        }
+        o.done();
+    }
+    if ran.load(Ordering::Relaxed) != n as u32 {
+        violation("not every spawned coroutine ran exactly once");
+    }
+    engine::finish_ok()
+}
